@@ -197,9 +197,76 @@ func foreignStream(ch *Choices, dangling bool) ([]byte, int, map[string]int) {
 // deep nesting, very many references to one object, very many tiny values. A decoder whose cost is
 // bounded by the input size handles all of them in linear time.
 func hostileStream(ch *Choices) ([]byte, string) {
+	b, d, _ := hostileStreamN(ch)
+	return b, d
+}
+
+// hostileStreamN also returns the number of top-level values on the stream.
+func hostileStreamN(ch *Choices) ([]byte, string, int) {
 	var b bytes.Buffer
 	f := &foreignBuilder{ch: ch, Features: map[string]int{}}
-	switch ch.Intn(6, "hostile.kind") {
+	switch ch.Intn(8, "hostile.kind") {
+	case 6, 7:
+		// containers that contain themselves and references of the wrong type: a Bag whose untyped list
+		// field holds (a reference to) itself, and whose other fields are references to drawn ordinals
+		listName := ZooNameMap["[]interface {}"]
+		if listName == "" {
+			listName = "[object"
+		}
+		b.WriteByte('C')
+		b.WriteByte(3)
+		b.WriteString("Bag")
+		b.WriteByte(0x93)
+		b.WriteByte(5)
+		b.WriteString("items")
+		b.WriteByte(5)
+		b.WriteString("other")
+		b.WriteByte(1)
+		b.WriteString("m")
+		b.WriteByte(0x60) // the Bag: ordinal 0
+		n := ch.Range(0, 3, "selfref.n")
+		if ch.Intn(2, "selfref.typed") == 0 {
+			b.WriteByte(byte(0x70 + n)) // typed list: ordinal 1
+			b.WriteByte(byte(len(listName)))
+			b.WriteString(listName)
+		} else {
+			b.WriteByte(byte(0x78 + n)) // untyped list: ordinal 1
+		}
+		for i := 0; i < n; i++ {
+			b.WriteByte(0x51)
+			b.WriteByte(byte(0x90 + ch.Intn(2, "selfref.elem"))) // the Bag or the list itself
+		}
+		if ch.Intn(3, "selfref.otherkind") == 0 {
+			b.WriteByte(0x78) // other []int32 := an empty UNTYPED list
+		} else {
+			b.WriteByte(0x51) // other []int32 := reference to a drawn ordinal (wrong type)
+			b.WriteByte(byte(0x90 + ch.Intn(3, "selfref.other")))
+		}
+		switch ch.Intn(3, "selfref.m") {
+		case 0:
+			b.WriteByte('N')
+		case 1:
+			b.WriteByte(0x51)
+			b.WriteByte(byte(0x90 + ch.Intn(3, "selfref.mref")))
+		default:
+			b.WriteByte('H')
+			b.WriteByte(1)
+			b.WriteString("k")
+			b.WriteByte(0x51)
+			b.WriteByte(byte(0x90 + ch.Intn(3, "selfref.mval")))
+			b.WriteByte('Z')
+		}
+		nv := 1
+		if ch.Intn(2, "selfref.trailing") == 1 {
+			// later values of the stream: top-level back-references to containers of the first message
+			k := ch.Range(1, 4, "selfref.ntrail")
+			for i := 0; i < k; i++ {
+				b.WriteByte(0x51)
+				b.WriteByte(byte(0x90 + ch.Intn(4, "selfref.trail")))
+				nv++
+			}
+		}
+		return b.Bytes(), "Bag with self-containing containers and references of the wrong type (+ top-level back-references as later values)", nv
 	case 0:
 		// L(n) = [L(n-1), ref L(n-1)] as fixed-length untyped lists: 3n+1 bytes, 2^n paths
 		n := ch.Range(8, 60, "hostile.depth")
@@ -215,7 +282,7 @@ func hostileStream(ch *Choices) ([]byte, string) {
 			f.int(int32(i))
 			b.Write(f.buf.Bytes())
 		}
-		return b.Bytes(), fmt.Sprintf("list DAG of depth %d (each level holds its child twice, once by reference)", n)
+		return b.Bytes(), fmt.Sprintf("list DAG of depth %d (each level holds its child twice, once by reference)", n), 1
 	case 1:
 		// the same with untyped maps: M(n) = {1: M(n-1), 2: ref M(n-1)}
 		n := ch.Range(8, 50, "hostile.depth")
@@ -234,7 +301,7 @@ func hostileStream(ch *Choices) ([]byte, string) {
 			}
 			b.WriteByte('Z')
 		}
-		return b.Bytes(), fmt.Sprintf("map DAG of depth %d", n)
+		return b.Bytes(), fmt.Sprintf("map DAG of depth %d", n), 1
 	case 2:
 		// deep nesting of one-element lists
 		n := ch.Range(100, 20000, "hostile.depth")
@@ -251,7 +318,7 @@ func hostileStream(ch *Choices) ([]byte, string) {
 				b.WriteByte('Z')
 			}
 		}
-		return b.Bytes(), fmt.Sprintf("%d nested one-element lists", n)
+		return b.Bytes(), fmt.Sprintf("%d nested one-element lists", n), 1
 	case 3:
 		// one big list, then a long list of references to it
 		n := ch.Range(100, 8000, "hostile.refs")
@@ -268,7 +335,7 @@ func hostileStream(ch *Choices) ([]byte, string) {
 			b.WriteByte(0x91)
 		}
 		b.WriteByte('Z')
-		return b.Bytes(), fmt.Sprintf("%d references to one 200-element list", n)
+		return b.Bytes(), fmt.Sprintf("%d references to one 200-element list", n), 1
 	case 4:
 		// very many tiny values in a variable-length list, typed as a zoo list
 		n := ch.Range(1000, 40000, "hostile.n")
@@ -279,7 +346,7 @@ func hostileStream(ch *Choices) ([]byte, string) {
 			b.WriteByte(byte(0x90 + i%40))
 		}
 		b.WriteByte('Z')
-		return b.Bytes(), fmt.Sprintf("variable-length typed list of %d one-byte ints", n)
+		return b.Bytes(), fmt.Sprintf("variable-length typed list of %d one-byte ints", n), 1
 	default:
 		// chain of objects, each pointing at the previous one by reference, plus a final fan-in list
 		n := ch.Range(50, 3000, "hostile.chain")
@@ -305,7 +372,7 @@ func hostileStream(ch *Choices) ([]byte, string) {
 			b.WriteByte(0x90)
 		}
 		b.WriteByte('Z')
-		return b.Bytes(), fmt.Sprintf("chain of %d objects linked by back-references", n)
+		return b.Bytes(), fmt.Sprintf("chain of %d objects linked by back-references", n), 1
 	}
 }
 
